@@ -87,6 +87,8 @@ class Site:
             self.app.router.remove(r)
         base = self.base
         self.app.route('/f/<name>', ['GET', 'HEAD'], lambda name: static_file(name, root=base))
+        # a download route open to every method: anything but HEAD gets the body
+        self.app.route('/fany/<name>', 'ANY', lambda name: static_file(name, root=base))
         app = self.app
 
         def twice(name):
@@ -219,6 +221,22 @@ def do_case(ctx, site, n, header, expect, what, both_methods=True, ims=None, sam
     if sample:
         ctx.sample({'file_len': n, 'Range': header, 'If-Modified-Since': ims, 'status': r.status,
                     'Content-Range': r.header('Content-Range'), 'Content-Length': r.header('Content-Length'), 'body_len': len(r.body)})
+    if both_methods and (n + len(header or '')) % 4 == 0:
+        # the method spelled in lower case, and a POST to a route open to any method: the same answer as GET
+        name, _ = site.file(n)
+        hh = {}
+        if header is not None:
+            hh['Range'] = header
+        if ims is not None:
+            hh['If-Modified-Since'] = ims
+        for meth, path in (('get', '/f/' + name), ('POST', '/fany/' + name), ('GET', '/fany/' + name)):
+            r2 = call_app(site.app, make_environ(meth, path, headers=hh))
+            ctx.count('methods_other_than_a_literal_GET')
+            same_body = r2.body == r.body if r.code in (200, 206) else True      # error pages quote the address, which differs between the routes
+            if r2.code != r.code or not same_body or (r.code in (200, 206, 304) and not headers_equal_modulo_date(r2, r)):
+                ctx.violation('answer-differs-for-another-spelling-or-method-than-GET', f'len={n} Range={header!r} ims={ims!r}: {meth} {path.split("/")[1]} -> {r2.status} {len(r2.body)} bytes, '
+                              f'GET -> {r.status} {len(r.body)} bytes', {'unit': {'kind': 'note', 'len': n, 'range': header, 'method': meth, 'route': path.split('/')[1]}})
+                break
     if both_methods:
         rh, _ = site.get(n, 'HEAD', header, ims)
         check_response(ctx, rh, data, 'HEAD', header, expect, wit, what)
